@@ -67,6 +67,12 @@ pub fn dying_threads_gone() -> bool {
     d.retain(|(tid, start)| task_start(*tid) == Some(*start));
     d.is_empty()
 }
+/// A body that is about to panic on a pool thread kills that thread: note it (this also covers builds without the hooks)
+pub fn note_dying_pool_thread() {
+    if thread::current().name().map(|n| n.starts_with("desync jobs thr")).unwrap_or(false) {
+        if let Some(t) = own_task() { if let Ok(mut d) = DYING.lock() { d.push(t); } }
+    }
+}
 pub fn on_exit_event() {
     if let Some(t) = own_task() { if let Ok(mut d) = DYING.lock() { d.push(t); } }
     POOL_EXITS.fetch_add(1, Ordering::SeqCst);
